@@ -107,7 +107,7 @@ func runC04(c *Ctx) {
 		return
 	}
 	call := r.FnCall
-	temp, haveTemp := c.tempCode()
+	_, _ = c.tempCode()
 	tags := c.tagBoolFields()
 
 	// ---- R04.1
@@ -120,104 +120,7 @@ func runC04(c *Ctx) {
 		}
 		c.check(tf.Exact, "R04.1", construct, c.ipos(tf.Store), "flag = (tag == \"true\")", tf.Why)
 	}
-	// transport call inside the retry loop
-	var sends []*ssa.Call
-	allInstrs(call, func(in ssa.Instruction) {
-		ci, ok := in.(*ssa.Call)
-		if !ok {
-			return
-		}
-		f := staticCallee(ci)
-		if f == nil || !p.allFns[f] {
-			return
-		}
-		// the transport helper: builds a client request (stores to the mailbox field) or calls the doRequest field
-		uses := false
-		for _, u := range p.uses(r.FReady) {
-			if u.Fn == f && u.Kind == "store" {
-				uses = true
-			}
-		}
-		for _, u := range p.uses(r.FDoReq) {
-			if u.Fn == f && u.Kind == "call" {
-				uses = true
-			}
-		}
-		if uses {
-			sends = append(sends, ci)
-		}
-	})
-	for _, u := range p.uses(r.FDoReq) {
-		if u.Fn == call && u.Kind == "call" {
-			sends = append(sends, u.At.(*ssa.Call))
-		}
-	}
-	if len(sends) == 0 {
-		c.und("R04.1", fname(call)+": transport send", p.pos(call.Pos()), "the call sending the request was not found")
-	}
-	for _, s := range sends {
-		construct := fmt.Sprintf("%s: re-send of a request", fname(call))
-		if !inLoop(s.Block()) {
-			c.ok("R04.1", construct, c.ipos(s), "the request is sent outside any loop: never re-sent")
-			continue
-		}
-		// back edges into the loop header that dominates the send: find the latch path: any block from which the send is
-		// reachable again. Conditions are taken at the sleep call (accepted idiom) or at the unique latch block.
-		var sleeps []*ssa.Call
-		allInstrs(call, func(in ssa.Instruction) {
-			if ci, ok := in.(*ssa.Call); ok && calleeName(ci) == "time.Sleep" && inLoop(ci.Block()) {
-				if reachFrom(ci, func(x ssa.Instruction) bool { return x == ssa.Instruction(s) }, nil) != nil {
-					sleeps = append(sleeps, ci)
-				}
-			}
-		})
-		// every way back to the send must pass a sleep
-		if back := reachFrom(s, func(x ssa.Instruction) bool { return x == ssa.Instruction(s) }, func(x ssa.Instruction) bool {
-			for _, sl := range sleeps {
-				if x == ssa.Instruction(sl) {
-					return true
-				}
-			}
-			return false
-		}); back != nil {
-			c.bad("R04.1", construct, c.ipos(s), "the request can be re-sent without a back-off sleep in between")
-			continue
-		}
-		retryF, haveRetry := tags["retry"]
-		okAll := len(sleeps) > 0
-		for _, sl := range sleeps {
-			conds := expandConds(impliedConds(sl.Block()))
-			// (a) retry flag true
-			flagOK := false
-			for _, cf := range conds {
-				if haveRetry && cf.True {
-					if _, ok := loadsField(cf.Cond, retryF.Field); ok {
-						flagOK = true
-					}
-				}
-			}
-			if !flagOK {
-				okAll = false
-				c.bad("R04.1", construct, c.ipos(sl), "a request can be re-sent although the method's retry flag is not known to be set: an untagged call may execute twice")
-			}
-			// (b) code == temporary (when the comparison is local)
-			codeOK := false
-			for _, cf := range conds {
-				if bo, ok := cf.Cond.(*ssa.BinOp); ok && ((bo.Op == token.EQL && cf.True) || (bo.Op == token.NEQ && !cf.True)) {
-					if c.isWireCodeVsTemp(bo, temp, haveTemp) {
-						codeOK = true
-					}
-				}
-			}
-			if !codeOK {
-				okAll = false
-				c.bad("R04.1", construct, c.ipos(sl), "the re-send is not conditioned on the reply's own error code being the temporary-connection code (e.g. the decision is taken on a converted error value): handler errors could be retried, or connection errors not")
-			}
-		}
-		if okAll {
-			c.ok("R04.1", construct, c.ipos(s), "re-send only after a sleep, under retry flag && wire code == temporary")
-		}
-	}
+	c.retryGateRule("R04.1")
 
 	// ---- R04.2
 	{
@@ -605,4 +508,118 @@ func zeroFieldOrigin(o apath) bool {
 		}
 	}
 	return true
+}
+
+// retryGateRule: a request is re-sent only after a back-off sleep, on a path where the method's retry
+// flag is known set and the reply's own error code equals the temporary-connection code. A retry taken on
+// anything else (a converted error, a local send error) either re-executes handlers or — for the permanent
+// "client closed" error — never ends.
+func (c *Ctx) retryGateRule(rule string) {
+	p, r := c.P, c.R
+	if r.FnCall == nil {
+		c.und(rule, "client call function", "-", "not resolved")
+		return
+	}
+	call := r.FnCall
+	temp, haveTemp := c.tempCode()
+	tags := c.tagBoolFields()
+	// transport call inside the retry loop
+	var sends []*ssa.Call
+	allInstrs(call, func(in ssa.Instruction) {
+		ci, ok := in.(*ssa.Call)
+		if !ok {
+			return
+		}
+		f := staticCallee(ci)
+		if f == nil || !p.allFns[f] {
+			return
+		}
+		// the transport helper: builds a client request (stores to the mailbox field) or calls the doRequest field
+		uses := false
+		for _, u := range p.uses(r.FReady) {
+			if u.Fn == f && u.Kind == "store" {
+				uses = true
+			}
+		}
+		for _, u := range p.uses(r.FDoReq) {
+			if u.Fn == f && u.Kind == "call" {
+				uses = true
+			}
+		}
+		if uses {
+			sends = append(sends, ci)
+		}
+	})
+	for _, u := range p.uses(r.FDoReq) {
+		if u.Fn == call && u.Kind == "call" {
+			sends = append(sends, u.At.(*ssa.Call))
+		}
+	}
+	if len(sends) == 0 {
+		c.und(rule, fname(call)+": transport send", p.pos(call.Pos()), "the call sending the request was not found")
+	}
+	for _, s := range sends {
+		construct := fmt.Sprintf("%s: re-send of a request", fname(call))
+		if !inLoop(s.Block()) {
+			c.ok(rule, construct, c.ipos(s), "the request is sent outside any loop: never re-sent")
+			continue
+		}
+		// back edges into the loop header that dominates the send: find the latch path: any block from which the send is
+		// reachable again. Conditions are taken at the sleep call (accepted idiom) or at the unique latch block.
+		var sleeps []*ssa.Call
+		allInstrs(call, func(in ssa.Instruction) {
+			if ci, ok := in.(*ssa.Call); ok && calleeName(ci) == "time.Sleep" && inLoop(ci.Block()) {
+				if reachFrom(ci, func(x ssa.Instruction) bool { return x == ssa.Instruction(s) }, nil) != nil {
+					sleeps = append(sleeps, ci)
+				}
+			}
+		})
+		// every way back to the send must pass a sleep
+		if back := reachFrom(s, func(x ssa.Instruction) bool { return x == ssa.Instruction(s) }, func(x ssa.Instruction) bool {
+			for _, sl := range sleeps {
+				if x == ssa.Instruction(sl) {
+					return true
+				}
+			}
+			return false
+		}); back != nil {
+			c.bad(rule, construct, c.ipos(s), "the request can be re-sent without a back-off sleep in between")
+			continue
+		}
+		retryF, haveRetry := tags["retry"]
+		okAll := len(sleeps) > 0
+		for _, sl := range sleeps {
+			conds := expandConds(impliedConds(sl.Block()))
+			// (a) retry flag true
+			flagOK := false
+			for _, cf := range conds {
+				if haveRetry && cf.True {
+					if _, ok := loadsField(cf.Cond, retryF.Field); ok {
+						flagOK = true
+					}
+				}
+			}
+			if !flagOK {
+				okAll = false
+				c.bad(rule, construct, c.ipos(sl), "a request can be re-sent although the method's retry flag is not known to be set: an untagged call may execute twice")
+			}
+			// (b) code == temporary (when the comparison is local)
+			codeOK := false
+			for _, cf := range conds {
+				if bo, ok := cf.Cond.(*ssa.BinOp); ok && ((bo.Op == token.EQL && cf.True) || (bo.Op == token.NEQ && !cf.True)) {
+					if c.isWireCodeVsTemp(bo, temp, haveTemp) {
+						codeOK = true
+					}
+				}
+			}
+			if !codeOK {
+				okAll = false
+				c.bad(rule, construct, c.ipos(sl), "the re-send is not conditioned on the reply's own error code being the temporary-connection code (e.g. the decision is taken on a converted error value): handler errors could be retried, or connection errors not")
+			}
+		}
+		if okAll {
+			c.ok(rule, construct, c.ipos(s), "re-send only after a sleep, under retry flag && wire code == temporary")
+		}
+	}
+
 }
